@@ -116,9 +116,9 @@ func cmdCheck(args []string) int {
 		fmt.Fprintln(os.Stderr, "--prop required")
 		return 2
 	}
-	to := 10
+	to := 30
 	if *tier == "thorough" {
-		to = 60
+		to = 120
 	}
 	if *timeout > 0 {
 		to = *timeout
@@ -179,7 +179,7 @@ func cmdCheck(args []string) int {
 		}
 	}
 	var wg sync.WaitGroup
-	sem := make(chan struct{}, 5)
+	sem := make(chan struct{}, 4)
 	var solverS float64
 	var mu sync.Mutex
 	for i, j := range jobs {
